@@ -65,6 +65,7 @@ type Runner struct {
 	verbose, keep     bool
 	only              []string
 	timeout           int
+	retry             int
 	eng               *Engine
 	eng32             *Engine
 	workdir           string
@@ -207,11 +208,32 @@ func (r *Runner) solveAll(frs []*FuncResult) {
 		}
 	}
 	wg.Wait()
+	// second chance for obligations that ran out of time while the machine was busy: alone, with three times the budget
+	// (an obligation is only reported as undischarged when it also fails here)
+	for _, fr := range frs {
+		for _, o := range fr.Obls {
+			if o.Canary || (o.Verdict.Result != "timeout" && o.Verdict.Result != "error") {
+				continue
+			}
+			first := o.Verdict
+			r.retry = 3
+			r.solve(o)
+			r.retry = 0
+			if o.Verdict.Result == "timeout" || o.Verdict.Result == "error" {
+				o.Verdict = first
+			} else {
+				o.Verdict.Retried = true
+			}
+		}
+	}
 }
 
 func (r *Runner) solve(o *Obligation) {
 	q := o.query("", true)
 	to := r.queryTimeout()
+	if r.retry > 0 {
+		to *= r.retry
+	}
 	only := r.only
 	if o.Canary {
 		to = 3
